@@ -19,3 +19,8 @@ func raceSync(p unsafe.Pointer)      { runtime.RaceAcquire(p); runtime.RaceRelea
 func RaceErrors() int                { return runtime.RaceErrors() }
 func RaceDisable()                   { runtime.RaceDisable() }
 func RaceEnable()                    { runtime.RaceEnable() }
+
+// HandOver/TakeOver let the harness model a user-level hand-over of data between goroutines
+// (e.g. a callback publishing what it was given) so that the detector sees it as synchronised.
+func HandOver(p unsafe.Pointer) { runtime.RaceReleaseMerge(p) }
+func TakeOver(p unsafe.Pointer) { runtime.RaceAcquire(p) }
